@@ -49,6 +49,8 @@ func (st *verifChan) addClient(id int64) *clientV2 {
 	cl, conn := verifClient(st.n, id, nil)
 	cl.Channel = st.c
 	cl.State = stateSubscribed
+	// a negotiated msg_timeout that differs from the server default (60 s)
+	cl.MsgTimeout = 37 * time.Second
 	st.c.AddClient(id, cl)
 	st.clients = append(st.clients, cl)
 	st.conns = append(st.conns, conn)
